@@ -2,7 +2,7 @@
 import importlib
 import sys
 
-TRANSLATORS = ["gen_registry", "gen_proto", "gen_clientapi", "gen_constants", "gen_model"]
+TRANSLATORS = ["gen_registry", "gen_proto", "gen_clientapi", "gen_constants", "gen_model", "gen_commands"]
 
 
 def run_all():
